@@ -2,11 +2,11 @@ package main
 
 import (
 	"fmt"
-	"os"
 	"go/constant"
 	"go/token"
 	"go/types"
 	"math/big"
+	"os"
 	"strings"
 )
 
@@ -28,13 +28,13 @@ type LoopCtx struct {
 }
 
 type Env struct {
-	ex   *Exec
-	st   *State
-	old  *State
-	vars map[string]TV
-	loop *LoopCtx
-	this *TV
-	sort *sortInfo
+	ex    *Exec
+	st    *State
+	old   *State
+	vars  map[string]TV
+	loop  *LoopCtx
+	this  *TV
+	sort  *sortInfo
 	inOld bool
 }
 
